@@ -15,7 +15,7 @@ F = CFGF
 
 TSUB = [Opt('int', b'a', 0, 1), Opt('intl', b'l', 0, b'{5}')]
 SCHEMA = [Opt('int', b'i', 0, 7), Opt('intl', b'il', 0, b'{1,2}'), Opt('str', b's', 0, b'd'), Opt('bool', b'b', 0, 0),
-          Opt('strl', b'sl', 0, None), Opt('sec', b'm', F['MULTI'], None, [Opt('int', b'a', 0, 1)]),
+          Opt('strl', b'sl', 0, b'{a,b,c}'), Opt('sec', b'm', F['MULTI'], None, [Opt('int', b'a', 0, 1)]),
           Opt('sec', b't', F['MULTI'] | F['TITLE'], None, TSUB), Opt('sec', b'sec', 0, None, [Opt('int', b'a', 0, 1)]),
           Opt('flt', b'f', 0, 0.5)]
 PARSED = b'il = {4}\nt x { a = 2 }\nm { a = 3 }\nm { a = 4 }\ns = "set"\n'
@@ -255,6 +255,13 @@ for path in (b'i', b'il', b's', b'nosuch', b't=x|a', b't=x|l', b'sec|a', b'm=1|a
         C('setint 0 %s %d %d' % (hx(path), v, idx), lambda st, p=path, v=v, i=idx: st.setn(p, 'int', v, i))
 C('setstr 0 %s %s 0' % (hx(b's'), hx(b'new')), lambda st: st.setn(b's', 'str', b'new', 0))
 C('setstr 0 %s - 0' % hx(b's'), lambda st: st.setn(b's', 'str', None, 0))
+# the text an option already shows (its default): still a set — the defaults go, the option counts as modified
+C('setstr 0 %s %s 0' % (hx(b's'), hx(b'd')), lambda st: st.setn(b's', 'str', b'd', 0))
+C('setstr 0 %s %s 1' % (hx(b'sl'), hx(b'b')), lambda st: st.setn(b'sl', 'str', b'b', 1))
+C('setint 0 %s 7 0' % hx(b'i'), lambda st: st.setn(b'i', 'int', 7, 0))
+# an append of nothing ends the "still the defaults" state without touching a value; a set inside the former defaults follows
+C('addlist 0 %s int' % hx(b'il'), lambda st: st.setlist(b'il', 'int', [], True))
+C('addlist 0 %s str' % hx(b'sl'), lambda st: st.setlist(b'sl', 'str', [], True))
 C('setstr 0 %s %s 1' % (hx(b'sl'), hx(b'z')), lambda st: st.setn(b'sl', 'str', b'z', 1))
 C('setstr 0 %s %s 0' % (hx(b'i'), hx(b'z')), lambda st: st.setn(b'i', 'str', b'z', 0))
 C('setbool 0 %s 1 0' % hx(b'b'), lambda st: st.setn(b'b', 'bool', 1, 0))
